@@ -23,6 +23,9 @@ pub const MIRRORS: &[(&[&str], &str, &str, &str)] = &[
     (&["C16", "C01"], "generator/rasn/utils.rs", "inner_name", "Gen.Names.innerName"),
     (&["C16", "C01"], "generator/rasn/utils.rs", "default_method_name", "Gen.Names.defaultFnName"),
     (&["C16"], "generator/rasn/utils.rs", "format_identifier_annotation", "Gen.Names.identifierAnnotation"),
+    (&["C16", "C13"], "lexer/common.rs", "type_reference", "Lexer.Names.typeReference"),
+    (&["C16", "C13"], "lexer/common.rs", "identifier", "Lexer.Names.identifier"),
+    (&["C16", "C13"], "lexer/common.rs", "value_reference", "Lexer.Names.valueReference"),
     // enumerated numbering, assembly of component lists
     (&["C14"], "lexer/enumerated.rs", "assign_enumeration_numbers", "Lexer.Enumerated"),
     (&["C05", "C02"], "lexer/sequence.rs", "extension_group", "Lexer.Assemble"),
